@@ -35,3 +35,36 @@ package goja
 //@   ensures forall k int :: 0 <= k && k < len(old(a.items)) && old(a.items[k].idx) >= a.length ==> !old(specNonConfigurable(a.items[k].value)) [keeps-nonconfigurable]
 //@   ensures forall k int :: 0 <= k && k < len(a.items) ==> same(a.items[k].value, old(a.items[k].value)) && a.items[k].idx < a.length [kept-elements]
 //@   ensures result == (a.length == l) [result]
+
+// ArraySetLength on dense storage.
+//@ func (*arrayObject)._setLengthInt
+//@   props C07
+//@   requires a != nil && a.val != nil && a.val.runtime != nil && len(a.values) <= int(a.length)
+//@   requires a.propValueCount <= 0 ==> forall k int :: 0 <= k && k < len(a.values) ==> !specNonConfigurable(a.values[k]) [counter]
+//@   loop 1 vars i int
+//@   loop 1 invariant -1 <= i && i < len(a.values) && sameslice(a.values, old(a.values)) [range]
+//@   loop 1 invariant forall k int :: i < k && k < len(a.values) && k >= int(l) ==> !specNonConfigurable(a.values[k]) [dropped-are-configurable]
+//@   loop 2 vars rangeindex int, ar []Value
+//@   loop 2 invariant -1 <= rangeindex && rangeindex < len(ar) && sameslice(a.values, old(a.values)) [range]
+//@   loop 2 invariant forall k int :: 0 <= k && k < len(a.values) - len(ar) ==> same(a.values[k], old(a.values[k])) [kept-untouched]
+//@   ensures a.length >= l [not-below-request]
+//@   ensures forall k int :: 0 <= k && k < len(old(a.values)) && k >= int(a.length) ==> !old(specNonConfigurable(a.values[k])) [keeps-nonconfigurable]
+//@   ensures forall k int :: 0 <= k && k < len(a.values) ==> same(a.values[k], old(a.values[k])) [kept-elements]
+//@   ensures len(a.values) <= int(a.length) [dense-wf]
+//@   ensures result == (a.length == l) [result]
+
+// SortCompare (23.1.3.30.2): holes after undefined after everything else; with a comparator the
+// result has the sign of ToNumber(comparefn(x, y)), and NaN, +0 and -0 all mean "equal".
+//@ func (*arraySortCtx).sortCompare
+//@   props C07
+//@   capture f float64 = ToFloat#1
+//@   requires a != nil
+//@   ensures x == nil && y == nil ==> result == 0 [holes-equal]
+//@   ensures x == nil && y != nil ==> result > 0 [hole-last]
+//@   ensures x != nil && y == nil ==> result < 0 [hole-last-2]
+//@   ensures x != nil && y != nil && specIsUndefined(x) && specIsUndefined(y) ==> result == 0 [undefined-equal]
+//@   ensures x != nil && y != nil && specIsUndefined(x) && !specIsUndefined(y) ==> result > 0 [undefined-after-values]
+//@   ensures x != nil && y != nil && !specIsUndefined(x) && specIsUndefined(y) ==> result < 0 [undefined-after-values-2]
+//@   ensures x != nil && y != nil && !specIsUndefined(x) && !specIsUndefined(y) && old(a.compare != nil) && !(f == 0 && math.Signbit(f)) ==> (result < 0) == (f < 0) && (result > 0) == (f > 0) [comparator-sign]
+// Known finding (kept by the existing test TestSortComparatorReturnValueNegZero): a comparator result of -0 is treated as "less".
+//@   ensures x != nil && y != nil && !specIsUndefined(x) && !specIsUndefined(y) && old(a.compare != nil) && f == 0 && math.Signbit(f) ==> result == 0 [comparator-negzero-means-equal]
